@@ -40,18 +40,32 @@ type typedKit struct {
 
 var typedKits []typedKit
 
+// outBuf: the buffer a caller hands to Pack / EncapsulateTo / SignTo style functions: fresh and
+// zeroed, or (dirtyOut) one that was used before and still holds old bytes.
+var dirtyOut bool
+
+func outBuf(n int) []byte {
+	b := make([]byte, n)
+	if dirtyOut {
+		for i := range b {
+			b[i] = 0xa5 ^ byte(i)
+		}
+	}
+	return b
+}
+
 func init() {
 	typedKits = append(typedKits, typedKit{name: "kem/kyber/kyber512", seedLen: kyber512.KeySeedSize,
 		newKeys: func(seed []byte) (any, any) { return kyber512.NewKeyFromSeed(seed) },
 		newPK:   func() any { return new(kyber512.PublicKey) }, newSK: func() any { return new(kyber512.PrivateKey) },
 		pubOf: func(sk any) any { return sk.(*kyber512.PrivateKey).Public().(*kyber512.PublicKey) },
 		packPK: func(k any) []byte {
-			b := make([]byte, kyber512.PublicKeySize)
+			b := outBuf(kyber512.PublicKeySize)
 			k.(*kyber512.PublicKey).Pack(b)
 			return b
 		},
 		packSK: func(k any) []byte {
-			b := make([]byte, kyber512.PrivateKeySize)
+			b := outBuf(kyber512.PrivateKeySize)
 			k.(*kyber512.PrivateKey).Pack(b)
 			return b
 		},
@@ -70,7 +84,7 @@ func init() {
 			return true
 		},
 		use: func(pk, sk any, r *core.PRNG) []byte {
-			ct, ss, ss2 := make([]byte, kyber512.CiphertextSize), make([]byte, kyber512.SharedKeySize), make([]byte, kyber512.SharedKeySize)
+			ct, ss, ss2 := outBuf(kyber512.CiphertextSize), outBuf(kyber512.SharedKeySize), outBuf(kyber512.SharedKeySize)
 			pk.(*kyber512.PublicKey).EncapsulateTo(ct, ss, r.Bytes(kyber512.EncapsulationSeedSize))
 			sk.(*kyber512.PrivateKey).DecapsulateTo(ss2, ct)
 			return append(append(ct[:32:32], ss...), ss2...)
@@ -80,12 +94,12 @@ func init() {
 		newPK:   func() any { return new(kyber768t.PublicKey) }, newSK: func() any { return new(kyber768t.PrivateKey) },
 		pubOf: func(sk any) any { return sk.(*kyber768t.PrivateKey).Public().(*kyber768t.PublicKey) },
 		packPK: func(k any) []byte {
-			b := make([]byte, kyber768t.PublicKeySize)
+			b := outBuf(kyber768t.PublicKeySize)
 			k.(*kyber768t.PublicKey).Pack(b)
 			return b
 		},
 		packSK: func(k any) []byte {
-			b := make([]byte, kyber768t.PrivateKeySize)
+			b := outBuf(kyber768t.PrivateKeySize)
 			k.(*kyber768t.PrivateKey).Pack(b)
 			return b
 		},
@@ -104,7 +118,7 @@ func init() {
 			return true
 		},
 		use: func(pk, sk any, r *core.PRNG) []byte {
-			ct, ss, ss2 := make([]byte, kyber768t.CiphertextSize), make([]byte, kyber768t.SharedKeySize), make([]byte, kyber768t.SharedKeySize)
+			ct, ss, ss2 := outBuf(kyber768t.CiphertextSize), outBuf(kyber768t.SharedKeySize), outBuf(kyber768t.SharedKeySize)
 			pk.(*kyber768t.PublicKey).EncapsulateTo(ct, ss, r.Bytes(kyber768t.EncapsulationSeedSize))
 			sk.(*kyber768t.PrivateKey).DecapsulateTo(ss2, ct)
 			return append(append(ct[:32:32], ss...), ss2...)
@@ -114,12 +128,12 @@ func init() {
 		newPK:   func() any { return new(kyber1024.PublicKey) }, newSK: func() any { return new(kyber1024.PrivateKey) },
 		pubOf: func(sk any) any { return sk.(*kyber1024.PrivateKey).Public().(*kyber1024.PublicKey) },
 		packPK: func(k any) []byte {
-			b := make([]byte, kyber1024.PublicKeySize)
+			b := outBuf(kyber1024.PublicKeySize)
 			k.(*kyber1024.PublicKey).Pack(b)
 			return b
 		},
 		packSK: func(k any) []byte {
-			b := make([]byte, kyber1024.PrivateKeySize)
+			b := outBuf(kyber1024.PrivateKeySize)
 			k.(*kyber1024.PrivateKey).Pack(b)
 			return b
 		},
@@ -138,7 +152,7 @@ func init() {
 			return true
 		},
 		use: func(pk, sk any, r *core.PRNG) []byte {
-			ct, ss, ss2 := make([]byte, kyber1024.CiphertextSize), make([]byte, kyber1024.SharedKeySize), make([]byte, kyber1024.SharedKeySize)
+			ct, ss, ss2 := outBuf(kyber1024.CiphertextSize), outBuf(kyber1024.SharedKeySize), outBuf(kyber1024.SharedKeySize)
 			pk.(*kyber1024.PublicKey).EncapsulateTo(ct, ss, r.Bytes(kyber1024.EncapsulationSeedSize))
 			sk.(*kyber1024.PrivateKey).DecapsulateTo(ss2, ct)
 			return append(append(ct[:32:32], ss...), ss2...)
@@ -148,12 +162,12 @@ func init() {
 		newPK:   func() any { return new(mlkem512.PublicKey) }, newSK: func() any { return new(mlkem512.PrivateKey) },
 		pubOf: func(sk any) any { return sk.(*mlkem512.PrivateKey).Public().(*mlkem512.PublicKey) },
 		packPK: func(k any) []byte {
-			b := make([]byte, mlkem512.PublicKeySize)
+			b := outBuf(mlkem512.PublicKeySize)
 			k.(*mlkem512.PublicKey).Pack(b)
 			return b
 		},
 		packSK: func(k any) []byte {
-			b := make([]byte, mlkem512.PrivateKeySize)
+			b := outBuf(mlkem512.PrivateKeySize)
 			k.(*mlkem512.PrivateKey).Pack(b)
 			return b
 		},
@@ -170,7 +184,7 @@ func init() {
 			return k.(*mlkem512.PrivateKey).Unpack(b) == nil
 		},
 		use: func(pk, sk any, r *core.PRNG) []byte {
-			ct, ss, ss2 := make([]byte, mlkem512.CiphertextSize), make([]byte, mlkem512.SharedKeySize), make([]byte, mlkem512.SharedKeySize)
+			ct, ss, ss2 := outBuf(mlkem512.CiphertextSize), outBuf(mlkem512.SharedKeySize), outBuf(mlkem512.SharedKeySize)
 			pk.(*mlkem512.PublicKey).EncapsulateTo(ct, ss, r.Bytes(mlkem512.EncapsulationSeedSize))
 			sk.(*mlkem512.PrivateKey).DecapsulateTo(ss2, ct)
 			return append(append(ct[:32:32], ss...), ss2...)
@@ -180,12 +194,12 @@ func init() {
 		newPK:   func() any { return new(mlkem768t.PublicKey) }, newSK: func() any { return new(mlkem768t.PrivateKey) },
 		pubOf: func(sk any) any { return sk.(*mlkem768t.PrivateKey).Public().(*mlkem768t.PublicKey) },
 		packPK: func(k any) []byte {
-			b := make([]byte, mlkem768t.PublicKeySize)
+			b := outBuf(mlkem768t.PublicKeySize)
 			k.(*mlkem768t.PublicKey).Pack(b)
 			return b
 		},
 		packSK: func(k any) []byte {
-			b := make([]byte, mlkem768t.PrivateKeySize)
+			b := outBuf(mlkem768t.PrivateKeySize)
 			k.(*mlkem768t.PrivateKey).Pack(b)
 			return b
 		},
@@ -202,7 +216,7 @@ func init() {
 			return k.(*mlkem768t.PrivateKey).Unpack(b) == nil
 		},
 		use: func(pk, sk any, r *core.PRNG) []byte {
-			ct, ss, ss2 := make([]byte, mlkem768t.CiphertextSize), make([]byte, mlkem768t.SharedKeySize), make([]byte, mlkem768t.SharedKeySize)
+			ct, ss, ss2 := outBuf(mlkem768t.CiphertextSize), outBuf(mlkem768t.SharedKeySize), outBuf(mlkem768t.SharedKeySize)
 			pk.(*mlkem768t.PublicKey).EncapsulateTo(ct, ss, r.Bytes(mlkem768t.EncapsulationSeedSize))
 			sk.(*mlkem768t.PrivateKey).DecapsulateTo(ss2, ct)
 			return append(append(ct[:32:32], ss...), ss2...)
@@ -212,12 +226,12 @@ func init() {
 		newPK:   func() any { return new(mlkem1024.PublicKey) }, newSK: func() any { return new(mlkem1024.PrivateKey) },
 		pubOf: func(sk any) any { return sk.(*mlkem1024.PrivateKey).Public().(*mlkem1024.PublicKey) },
 		packPK: func(k any) []byte {
-			b := make([]byte, mlkem1024.PublicKeySize)
+			b := outBuf(mlkem1024.PublicKeySize)
 			k.(*mlkem1024.PublicKey).Pack(b)
 			return b
 		},
 		packSK: func(k any) []byte {
-			b := make([]byte, mlkem1024.PrivateKeySize)
+			b := outBuf(mlkem1024.PrivateKeySize)
 			k.(*mlkem1024.PrivateKey).Pack(b)
 			return b
 		},
@@ -234,7 +248,7 @@ func init() {
 			return k.(*mlkem1024.PrivateKey).Unpack(b) == nil
 		},
 		use: func(pk, sk any, r *core.PRNG) []byte {
-			ct, ss, ss2 := make([]byte, mlkem1024.CiphertextSize), make([]byte, mlkem1024.SharedKeySize), make([]byte, mlkem1024.SharedKeySize)
+			ct, ss, ss2 := outBuf(mlkem1024.CiphertextSize), outBuf(mlkem1024.SharedKeySize), outBuf(mlkem1024.SharedKeySize)
 			pk.(*mlkem1024.PublicKey).EncapsulateTo(ct, ss, r.Bytes(mlkem1024.EncapsulationSeedSize))
 			sk.(*mlkem1024.PrivateKey).DecapsulateTo(ss2, ct)
 			return append(append(ct[:32:32], ss...), ss2...)
@@ -266,7 +280,7 @@ func init() {
 		},
 		use: func(pk, sk any, r *core.PRNG) []byte {
 			msg := r.Bytes(24)
-			sig := make([]byte, mode2.SignatureSize)
+			sig := outBuf(mode2.SignatureSize)
 			mode2.SignTo(sk.(*mode2.PrivateKey), msg, sig)
 			ok := mode2.Verify(pk.(*mode2.PublicKey), msg, sig)
 			out := append([]byte{}, sig[:48]...)
@@ -302,7 +316,7 @@ func init() {
 		},
 		use: func(pk, sk any, r *core.PRNG) []byte {
 			msg := r.Bytes(24)
-			sig := make([]byte, mode3.SignatureSize)
+			sig := outBuf(mode3.SignatureSize)
 			mode3.SignTo(sk.(*mode3.PrivateKey), msg, sig)
 			ok := mode3.Verify(pk.(*mode3.PublicKey), msg, sig)
 			out := append([]byte{}, sig[:48]...)
@@ -338,7 +352,7 @@ func init() {
 		},
 		use: func(pk, sk any, r *core.PRNG) []byte {
 			msg := r.Bytes(24)
-			sig := make([]byte, mode5.SignatureSize)
+			sig := outBuf(mode5.SignatureSize)
 			mode5.SignTo(sk.(*mode5.PrivateKey), msg, sig)
 			ok := mode5.Verify(pk.(*mode5.PublicKey), msg, sig)
 			out := append([]byte{}, sig[:48]...)
@@ -374,7 +388,7 @@ func init() {
 		},
 		use: func(pk, sk any, r *core.PRNG) []byte {
 			msg := r.Bytes(24)
-			sig := make([]byte, mldsa44.SignatureSize)
+			sig := outBuf(mldsa44.SignatureSize)
 			mldsa44.SignTo(sk.(*mldsa44.PrivateKey), msg, nil, false, sig)
 			ok := mldsa44.Verify(pk.(*mldsa44.PublicKey), msg, nil, sig)
 			out := append([]byte{}, sig[:48]...)
@@ -410,7 +424,7 @@ func init() {
 		},
 		use: func(pk, sk any, r *core.PRNG) []byte {
 			msg := r.Bytes(24)
-			sig := make([]byte, mldsa65.SignatureSize)
+			sig := outBuf(mldsa65.SignatureSize)
 			mldsa65.SignTo(sk.(*mldsa65.PrivateKey), msg, nil, false, sig)
 			ok := mldsa65.Verify(pk.(*mldsa65.PublicKey), msg, nil, sig)
 			out := append([]byte{}, sig[:48]...)
@@ -446,7 +460,7 @@ func init() {
 		},
 		use: func(pk, sk any, r *core.PRNG) []byte {
 			msg := r.Bytes(24)
-			sig := make([]byte, mldsa87.SignatureSize)
+			sig := outBuf(mldsa87.SignatureSize)
 			mldsa87.SignTo(sk.(*mldsa87.PrivateKey), msg, nil, false, sig)
 			ok := mldsa87.Verify(pk.(*mldsa87.PublicKey), msg, nil, sig)
 			out := append([]byte{}, sig[:48]...)
@@ -482,7 +496,7 @@ func init() {
 		},
 		use: func(pk, sk any, r *core.PRNG) []byte {
 			msg := r.Bytes(24)
-			sig := make([]byte, eddil2.SignatureSize)
+			sig := outBuf(eddil2.SignatureSize)
 			eddil2.SignTo(sk.(*eddil2.PrivateKey), msg, sig)
 			ok := eddil2.Verify(pk.(*eddil2.PublicKey), msg, sig)
 			out := append([]byte{}, sig[:48]...)
@@ -518,7 +532,7 @@ func init() {
 		},
 		use: func(pk, sk any, r *core.PRNG) []byte {
 			msg := r.Bytes(24)
-			sig := make([]byte, eddil3.SignatureSize)
+			sig := outBuf(eddil3.SignatureSize)
 			eddil3.SignTo(sk.(*eddil3.PrivateKey), msg, sig)
 			ok := eddil3.Verify(pk.(*eddil3.PublicKey), msg, sig)
 			out := append([]byte{}, sig[:48]...)
@@ -535,12 +549,12 @@ func init() {
 		newPK: func() any { return new(frodo640shake.PublicKey) }, newSK: func() any { return new(frodo640shake.PrivateKey) },
 		pubOf: func(sk any) any { return sk.(*frodo640shake.PrivateKey).Public().(*frodo640shake.PublicKey) },
 		packPK: func(k any) []byte {
-			b := make([]byte, frodo640shake.PublicKeySize)
+			b := outBuf(frodo640shake.PublicKeySize)
 			k.(*frodo640shake.PublicKey).Pack(b)
 			return b
 		},
 		packSK: func(k any) []byte {
-			b := make([]byte, frodo640shake.PrivateKeySize)
+			b := outBuf(frodo640shake.PrivateKeySize)
 			k.(*frodo640shake.PrivateKey).Pack(b)
 			return b
 		},
@@ -559,7 +573,7 @@ func init() {
 			return true
 		},
 		use: func(pk, sk any, r *core.PRNG) []byte {
-			ct, ss, ss2 := make([]byte, frodo640shake.CiphertextSize), make([]byte, frodo640shake.SharedKeySize), make([]byte, frodo640shake.SharedKeySize)
+			ct, ss, ss2 := outBuf(frodo640shake.CiphertextSize), outBuf(frodo640shake.SharedKeySize), outBuf(frodo640shake.SharedKeySize)
 			pk.(*frodo640shake.PublicKey).EncapsulateTo(ct, ss, r.Bytes(frodo640shake.EncapsulationSeedSize))
 			sk.(*frodo640shake.PrivateKey).DecapsulateTo(ss2, ct)
 			return append(append(ct[:32:32], ss...), ss2...)
@@ -568,8 +582,8 @@ func init() {
 		newKeys: func(seed []byte) (any, any) { sk, pk := xwing.DeriveKeyPair(seed); return pk, sk },
 		newPK:   func() any { return new(xwing.PublicKey) }, newSK: func() any { return new(xwing.PrivateKey) },
 		pubOf:  func(sk any) any { return sk.(*xwing.PrivateKey).Public().(*xwing.PublicKey) },
-		packPK: func(k any) []byte { b := make([]byte, xwing.PublicKeySize); k.(*xwing.PublicKey).Pack(b); return b },
-		packSK: func(k any) []byte { b := make([]byte, xwing.PrivateKeySize); k.(*xwing.PrivateKey).Pack(b); return b },
+		packPK: func(k any) []byte { b := outBuf(xwing.PublicKeySize); k.(*xwing.PublicKey).Pack(b); return b },
+		packSK: func(k any) []byte { b := outBuf(xwing.PrivateKeySize); k.(*xwing.PrivateKey).Pack(b); return b },
 		unpackPK: func(k any, b []byte) bool {
 			if len(b) != xwing.PublicKeySize {
 				return false
@@ -584,7 +598,7 @@ func init() {
 			return true
 		},
 		use: func(pk, sk any, r *core.PRNG) []byte {
-			ct, ss, ss2 := make([]byte, xwing.CiphertextSize), make([]byte, xwing.SharedKeySize), make([]byte, xwing.SharedKeySize)
+			ct, ss, ss2 := outBuf(xwing.CiphertextSize), outBuf(xwing.SharedKeySize), outBuf(xwing.SharedKeySize)
 			pk.(*xwing.PublicKey).EncapsulateTo(ct, ss, r.Bytes(xwing.EncapsulationSeedSize))
 			sk.(*xwing.PrivateKey).DecapsulateTo(ss2, ct)
 			return append(append(ct[:32:32], ss...), ss2...)
@@ -621,6 +635,15 @@ func typedHistory(run *core.Run, k *typedKit, imm uint64) {
 	}
 	tA := k.use(fa, fsa, core.NewPRNG(useSeed))
 	tB := k.use(fb, fsb, core.NewPRNG(useSeed))
+	// output buffers that were used before: what is written must not depend on what they held
+	dirtyOut = true
+	dA, dsA, dtA := k.packPK(pkA), k.packSK(skA), k.use(fa, fsa, core.NewPRNG(useSeed))
+	dirtyOut = false
+	run.Fault("history:output-buffer-used-before")
+	if !bytes.Equal(dA, bA) || !bytes.Equal(dsA, sA) || !bytes.Equal(dtA, tA) {
+		run.Violate(comp, "output-depends-on-old-buffer-contents", "packing a key or encapsulating / signing into a buffer that held other bytes gives another result than into a zeroed one (public key equal=%v, private key equal=%v, use equal=%v)", bytes.Equal(dA, bA), bytes.Equal(dsA, sA), bytes.Equal(dtA, tA))
+		return
+	}
 	if !bytes.Equal(k.use(pkA, skA, core.NewPRNG(useSeed)), tA) {
 		run.Violate(comp, "decode-into-fresh-object-differs", "keys restored from their packed form behave differently from the generated ones")
 		return
